@@ -60,6 +60,7 @@ inductive Pc where
   | mitmPeek        -- MITM: 200 written; blocking `brw.Read` of the first tunnel byte
   | mitmHandshake   -- MITM: `tlsconn.Handshake()`
   | h2session       -- MITM, ALPN h2: inside `h2.Config.Proxy(p.closing, …)`
+  | drainBody (close : Bool) -- response written; `handle` is returning and its deferred `req.Body.Close()` reads what the client has not yet sent of the request body
   | closingConn     -- `handleLoop` is returning; deferred `conn.Close()` pending
   | closed          -- connection closed; deferred `conns.Done()` pending
   | done
@@ -108,6 +109,7 @@ structure Handler where
   aborted : Nat := 0            -- responses whose write failed (client gone / idle deadline)
   cresps : Nat := 0             -- completed responses to CONNECT (not recorded in `marks`)
   rtFailed : Nat := 0           -- round trips that returned an error (answered with a 502)
+  bodyOpen : Bool := false      -- the current request announced a body the client has not finished sending, and the deferred `req.Body.Close()` will read it to the end (net/http does not when the request said `Connection: close` and the body has no trailer)
   deriving DecidableEq, Repr
 
 structure Sys where
@@ -140,6 +142,9 @@ inductive HL where
   -- round 4: the upstream round trip returns an ERROR (dial refused, reset, truncated head, timeout):
   -- `handle` builds a 502 with a Warning header and goes on exactly as with an origin response
   | rtFail
+  -- round 5: `readRequest` returned a request whose announced body (Content-Length / chunked / behind
+  -- `Expect: 100-continue`) has not been received completely; `bodyDone`: the client sent the rest or went away
+  | gotReqOpen (reqClose : Bool) | bodyDone
   deriving DecidableEq, Repr
 
 inductive Label where
@@ -171,7 +176,7 @@ def Pc.inExchange : Pc → Bool
 /-- The handler waits for a peer (client or tunnel target), whatever the shutdown state: an open blind
 tunnel, the first byte of a MITM'd tunnel, the TLS handshake. -/
 def Pc.peerBlocked : Pc → Bool
-  | .tunnel | .mitmPeek | .mitmHandshake => true
+  | .tunnel | .mitmPeek | .mitmHandshake | .drainBody _ => true
   | _ => false
 
 /-- Some completed response was marked `Connection: close`. -/
@@ -188,12 +193,22 @@ def hstep (closing mu returned : Bool) (h : Handler) : HL → Option Handler
   | .gotReq rc =>
     -- `select` in readRequest: the request arm may be taken whether or not `closing` is closed
     if h.pc.readable then
-      some { h with pc := .haveReq, reqClose := rc, resClose := false, conn := .no, reqs := h.reqs + 1,
+      some { h with pc := .haveReq, reqClose := rc, resClose := false, conn := .no, reqs := h.reqs + 1, bodyOpen := false,
                     servedAfterMark := h.servedAfterMark || anyMarked h.marks }
     else none
+  | .gotReqOpen rc =>
+    if h.pc.readable then
+      some { h with pc := .haveReq, reqClose := rc, resClose := false, conn := .no, reqs := h.reqs + 1, bodyOpen := true,
+                    servedAfterMark := h.servedAfterMark || anyMarked h.marks }
+    else none
+  -- the deferred `req.Body.Close()` of `handle` (it reads and discards the rest of the body) returns
+  | .bodyDone =>
+    match h.pc with
+    | .drainBody b => some { h with pc := if b then .closingConn else .idleRead, bodyOpen := false }
+    | _ => none
   | .gotConnect =>
     if h.pc.readable then
-      some { h with pc := .haveReq, reqClose := false, resClose := false, conn := .pending, reqs := h.reqs + 1,
+      some { h with pc := .haveReq, reqClose := false, resClose := false, conn := .pending, reqs := h.reqs + 1, bodyOpen := false,
                     servedAfterMark := h.servedAfterMark || anyMarked h.marks }
     else none
   | .closingSeen => if h.pc.readable ∧ closing then some { h with pc := .closingConn } else none
@@ -258,7 +273,7 @@ def hstep (closing mu returned : Bool) (h : Handler) : HL → Option Handler
   | .writeEnd =>
     match h.pc with
     | .writing b =>
-      some { h with pc := if b then .closingConn else .idleRead, completed := h.completed + 1,
+      some { h with pc := if h.bodyOpen then .drainBody b else if b then .closingConn else .idleRead, completed := h.completed + 1,
                     marks := h.marks ++ [(h.obsAtDecision, h.reqClose || h.resClose, b)] }
     | _ => none
   | .closeConn => if h.pc = .closingConn then some { h with pc := .closed } else none
@@ -314,6 +329,7 @@ client connects), bytes of a request (`firstByte`, `gotReq`), client close / tim
 def Label.internal : Label → Bool
   | .accept | .closeCall | .closeCall2 => false
   | .h _ (.firstByte) | .h _ (.gotReq _) | .h _ .readErr => false
+  | .h _ (.gotReqOpen _) | .h _ .bodyDone
   | .h _ .gotConnect | .h _ .writeErr | .h _ .tunnelEnd | .h _ (.peeked _) | .h _ (.handshakeEnd _)
   | .h _ .h2PeerEnd => false
   | _ => true
@@ -321,7 +337,7 @@ def Label.internal : Label → Bool
 /-- Moves of a peer that end the wait of a peer-blocked handler (tunnel peers closing, the client of a
 MITM'd tunnel sending its first byte / finishing or failing the handshake — or the idle deadline). -/
 def Label.peerMove : Label → Bool
-  | .h _ .tunnelEnd | .h _ (.peeked _) | .h _ (.handshakeEnd _) => true
+  | .h _ .tunnelEnd | .h _ (.peeked _) | .h _ (.handshakeEnd _) | .h _ .bodyDone => true
   | _ => false
 
 end Martian.Shutdown
